@@ -2,7 +2,7 @@
     model's executable definitions (the same ones the theorems of Properties/C01.v are about). *)
 From Coq Require Import String List NArith.
 From Coq Require Import Strings.Byte.
-From GoBT Require Import lib.Bytes lib.Hex lib.Parse lib.VarInt lib.Sha256 model.Tx model.TxsInto corr.Corr.
+From GoBT Require Import lib.Bytes lib.Hex lib.Parse lib.VarInt lib.Sha256 model.Tx model.TxsInto model.TxText corr.Corr.
 Import ListNotations.
 Local Open Scope N_scope.
 
@@ -13,7 +13,11 @@ Inductive case :=
 (* Txs.ReadFrom into a destination that held [held] transactions before: verdict, bytes consumed and the number of
    transactions it holds afterwards (model/TxsInto.v; the contents are compared with the fresh destination's on the
    Go side, and the fresh destination's with [read_txs] in the CList case of the same bytes) *)
-| CListInto (held : N) (b : bytes) (ok : bool) (used : N) (count : N).
+| CListInto (held : N) (b : bytes) (ok : bool) (used : N) (count : N)
+(* bt.NewTxFromString on a text (given as its bytes; model/TxText.v): verdict and, when accepted, the extended
+   serialisation of the result.  The texts are hex of requests and of accepted transactions followed by material of
+   every kind (hex digits, a second transaction, a dangling digit, characters that are not hex digits) *)
+| CText (text : bytes) (ok : bool) (ext_sha : string).
 
 (** long observations are compared through SHA-256 of the same canonical bytes on both sides *)
 Definition sha_is (b : bytes) (h : string) : bool := String.eqb (hex_of (sha256 b)) h.
@@ -47,6 +51,12 @@ Definition check (c : case) : bool :=
       | IOk l n _ => ok && (n =? used) && (N.of_nat (List.length l) =? count)
       | IErr _ n => negb ok && (n =? used)
       | IFuel => false
+      end
+  | CText text ok ext =>
+      match tx_from_string (string_of_list_byte text) with
+      | ROk p => ok && sha_is (tx_bytes true (p_tx p)) ext
+      | RErr => negb ok
+      | RFuel => false
       end
   end.
 
